@@ -148,7 +148,7 @@ func (c *Config) Validate() error {
 		return fmt.Errorf("%w: Compaction levels must be positive", ErrInvalidConfig)
 	}
 
-	if c.CompactionRatio <= 1.0 {
+	if !(c.CompactionRatio > 1.0) { // also rejects NaN
 		return fmt.Errorf("%w: Compaction ratio must be greater than 1.0", ErrInvalidConfig)
 	}
 
